@@ -32,6 +32,7 @@ class _Assumed(Contract):
 
 class FileVersionView(_Assumed):
     """get_file_version() per VersionFromInt: the version whose encoding is header word 72"""
+    only_in = ('SgzReader.__init__',)
     def fresh_result(self, c, a):
         prog = c.ex.prog
         M = c.sym_int('fvM', lo=0, hi=2047, name='file_version.major'); m = c.sym_int('fvm', lo=0, hi=1023, name='file_version.minor')
@@ -48,6 +49,7 @@ fuc(RI + 'get_file_version', props=[], modular=True)(FileVersionView)
 
 class TemplateView(_Assumed):
     """_decode_traceheader_template() per HwiInitBuffer + GetHeaderDict: some template dict"""
+    only_in = ('SgzReader.__init__',)
     def fresh_result(self, c, a):
         t = {1: 0, 189: 0}
         c.ghost['template'] = t
@@ -59,6 +61,7 @@ fuc(RI + '_decode_traceheader_template', props=[], modular=True)(TemplateView)
 
 class CoordsView(_Assumed):
     """_parse_coordinates() per ParseCoordinates"""
+    only_in = ('SgzReader.__init__',)
     def fresh_result(self, c, a):
         r = ('<zslices>', '<xlines>', '<ilines>')
         return r
@@ -69,6 +72,7 @@ fuc(RI + '_parse_coordinates', props=[], modular=True)(CoordsView)
 
 class CacheSizeView(_Assumed):
     """get_chunk_cache_size: some positive int (value only affects caching: C15)"""
+    only_in = ('SgzReader.__init__',)
     def fresh_result(self, c, a):
         return c.sym_int('cache_size', lo=2, name='chunk_cache_size')
 
